@@ -105,6 +105,9 @@ void harness(void)
 	p = mk_p(nstruct, nrows, has_basis);
 	p->qslp->sense = qsv_alloc((size_t) nrows);
 	for (i = 0; i < NBMAX; i++) if (i < nrows) { char c = nondet_char(); ASSUME(c == 'L' || c == 'G' || c == 'E' || c == 'R'); p->qslp->sense[i] = c; }
+	/* range values exist independently of the senses (ILLlib_chgsense does not reset them): arbitrary, possibly absent */
+	p->qslp->rangeval = nondet_bool() ? qsv_numarray(NBMAX) : 0;
+	if (p->qslp->rangeval) for (i = 0; i < NBMAX; i++) qsv_setnum(p->qslp->rangeval[i], qsv_nondet_payload());
 	B = mk_qsbasis(bs, br);
 	for (i = 0; i < NBMAX; i++) if (i < bs) { char c = B->cstat[i]; if (c == QS_COL_BSTAT_BASIC) nbas++; if (c != QS_COL_BSTAT_LOWER && c != QS_COL_BSTAT_BASIC && c != QS_COL_BSTAT_UPPER && c != QS_COL_BSTAT_FREE) legal = 0; }
 	for (i = 0; i < NBMAX; i++) if (i < br) { char c = B->rstat[i]; if (c == QS_ROW_BSTAT_BASIC) nbas++; if (c != QS_ROW_BSTAT_LOWER && c != QS_ROW_BSTAT_BASIC && c != QS_ROW_BSTAT_UPPER) legal = 0;
